@@ -135,11 +135,21 @@ var variants = []variant{
 		f := eth6(p, lib.MkIP6(peerIP6(p), lib.HostLLA, 58, 64, echo6(peerIP6(p), lib.HostLLA, 129, id, nil)))
 		return f[:aux%len(f)]
 	}},
-	// IPv6 payload length off by one / frame longer than the payload length
+	// IPv6 payload length larger than what is there
 	{"len6", false, func(id uint16, aux, p int) []byte {
 		f := eth6(p, lib.MkIP6(peerIP6(p), lib.HostLLA, 58, 64, echo6(peerIP6(p), lib.HostLLA, 129, id, data(aux))))
 		pl := int(f[18])<<8 | int(f[19])
-		put16(f, 18, pl+[]int{1, -1, 8, 65535 - pl, 65496}[aux%5])
+		put16(f, 18, []int{pl + 1, pl + 8, 65535, 65496 + pl}[aux%4]&0xffff)
+		return f
+	}},
+	// IPv6 reply followed by trailing bytes / payload length cutting the echo data (still >= 8)
+	{"trail6", true, func(id uint16, aux, p int) []byte {
+		f := eth6(p, lib.MkIP6(peerIP6(p), lib.HostLLA, 58, 64, echo6(peerIP6(p), lib.HostLLA, 129, id, data(20+aux%20))))
+		if aux%2 == 0 {
+			return append(f, make([]byte, 1+aux%9)...)
+		}
+		pl := int(f[18])<<8 | int(f[19])
+		put16(f, 18, pl-1-aux%10)
 		return f
 	}},
 	// ---- recorded defect classes: frames that are NOT echo replies by the RFCs but reach echoNotify ----
@@ -180,6 +190,12 @@ var variants = []variant{
 	{"tl4", true, func(id uint16, aux, p int) []byte {
 		f := eth4(p, ip4Echo(peerIP4(p), lib.HostIP4, 1, lib.MkICMPEcho(0, 0, id, 1, data(aux))))
 		put16(f, 16, 20+aux%8)
+		return f
+	}},
+	// IPv6 PayloadLength leaves fewer than 8 bytes of ICMPv6, the frame goes on
+	{"pl6", true, func(id uint16, aux, p int) []byte {
+		f := eth6(p, lib.MkIP6(peerIP6(p), lib.HostLLA, 58, 64, echo6(peerIP6(p), lib.HostLLA, 129, id, data(aux))))
+		put16(f, 18, aux%8)
 		return f
 	}},
 	// TotalLength below the header length (rejected by IP4.IsValid since /repo 38ef1da)
